@@ -1,6 +1,10 @@
 HOOK_COMMITS = ["4172cbf", "74fb8b3", "113d79e", "16481f2", "a8453e3", "1565b2c"]
 
 ENGINES = [
+    {"name": "alloc", "path": "engines/alloc.c", "serves_properties": ["C05", "C12", "C13", "C11"],
+     "kind_free_text": "drives the real rs_* API and model_allocator_checkpoint_take/_restore/_fossil_lp_collect against a shadow model (live set, copies of every block per checkpoint, operation log re-executed as coasting forward); 64 KiB and 2 KiB arena builds; exhaustive enumeration of short sequences on the small arena; ASan+UBSan"},
+    {"name": "queue", "path": "engines/queue.c", "serves_properties": ["C15", "C11"],
+     "kind_free_text": "multi-thread histories on the real msg_queue.c recorded at the harness boundary (logical clock, unique ids) + offline exactly-once/minimality/peek checker; failpoints between head load and CAS; ASan, plain and ThreadSanitizer builds"},
     {"name": "topo", "path": "engines/topo.c", "serves_properties": ["C19", "C11"],
      "kind_free_text": "cross-checks GetReceiver/IsNeighbor/CountDirections over a size box for the eight geometries; purity replay of (generator state, query) lists in other orders and on 2..12 threads; ASan+UBSan, debug and NDEBUG"},
     {"name": "num", "path": "engines/num.c", "serves_properties": ["C18", "C11"],
@@ -12,6 +16,34 @@ ENGINES = [
 ]
 
 CHECKS = {
+    "C05": {
+        "engine": "alloc (+ sim oracle A when registered)",
+        "technique": "runtime shadow-model oracle on the real allocator/checkpoint code under ASan+UBSan (restore + re-execution vs recorded state)",
+        "text": "Seeded histories of allocator operations with checkpoints at arbitrary positions and rollbacks to targets at, between and before checkpoints (down to the oldest kept point), repeated rollbacks, tens of arenas created after the restored checkpoint. After each restore the allocation map read from the real trees and every live byte must equal the snapshot; after re-executing the logged operations the state must equal the one recorded at the target. Exact-size checkpoint buffers make sizing errors ASan reports.",
+        "design_ref": "DESIGN.md section 4, C05",
+        "note": "Addresses of re-executed allocations are excluded from the comparison (see assumptions in the evidence). Interplay with the event loop (silent execution, anti-messages) is covered by the sim engine, not by this engine.",
+    },
+    "C12": {
+        "engine": "alloc",
+        "technique": "runtime shadow-model oracle on the real allocator under ASan+UBSan; exhaustive enumeration of short operation sequences on a 2 KiB-arena build",
+        "text": "After every operation of seeded histories (sizes 0, 1..64, around every power of two, 64 KiB, > 64 KiB; malloc/calloc/realloc/free/write; growth to tens of arenas; interleaved checkpoints/restores) the shadow checks: non-NULL for 1..65536, NULL otherwise, inside an arena, aligned, long enough (actual reserved size read from the tree), disjoint, other blocks' bytes unchanged, allocation map == union of live blocks, freed space reused before a new arena is created, realloc prefix preserved, calloc zeroed on dirtied memory, calloc overflow refused. All malloc/free/checkpoint/rollback sequences up to depth 5 (quick) / 6 (thorough) on a 32-leaf arena.",
+        "design_ref": "DESIGN.md section 4, C12",
+        "note": "Host malloc failure is not injected. The exhaustive part covers the small-arena build only (same code, B_TOTAL_EXP=11).",
+    },
+    "C13": {
+        "engine": "alloc (+ sim when registered)",
+        "technique": "runtime shadow-model oracle: fossil collections at arbitrary targets followed by rollbacks to every kind of kept position, under ASan+UBSan",
+        "text": "model_allocator_fossil_lp_collect is called at arbitrary targets between the oldest kept checkpoint and the current position; the returned amount must be the newest checkpoint <= target, kept checkpoints must be re-based consistently, and subsequent rollbacks (including immediately after a collection and to the oldest kept point) must reproduce the shadow state; freed checkpoints that are still needed become ASan reports.",
+        "design_ref": "DESIGN.md section 4, C13",
+        "note": "The runtime side (fossil_lp_collect choosing the cut from GVT, history truncation) is exercised by the sim engine.",
+    },
+    "C15": {
+        "engine": "queue",
+        "technique": "offline history checker (exactly-once, minimality w.r.t. real-time order, peek lower bound) over recorded multi-thread executions of the real queue + ThreadSanitizer on the same harness",
+        "text": "2..16 threads insert into 1..5 consumers' queues while consumers extract and peek; every operation is stamped before the call and after the return with one logical clock, every message carries a unique id. The checker decides: each insert extracted exactly once by its destination; an extraction never returns a message while another one, whose insert returned before the extract call, orders strictly first (full order incl. tie-break, using the real comparator); peek never above such a message's timestamp; nothing left after draining. The TSan build reports a missing release/acquire on the payload hand-over.",
+        "design_ref": "DESIGN.md section 4, C15",
+        "note": "Interleavings are produced by the OS plus yield/spin failpoints between the head load and the CAS; not enumerated. TSan flavour: no order oracle (relaxed clock).",
+    },
     "C19": {
         "engine": "topo",
         "technique": "runtime cross-check oracle over an exhaustive size box + metamorphic purity replay (orders, threads) under ASan/UBSan",
